@@ -221,3 +221,39 @@ def long(case, ctx):
     if abs(float(I.sum()) - p_in) > 1e-10 * p_in or abs(p_in - case["power"]) > 1e-12 * case["power"]:
         raise Violation("C05.long.total", f"full-period image of a {amp.shape} pupil (period {N}, oversample {os_}) carries "
                                           f"{float(I.sum()):.12e}, input power {p_in:.12e}")
+
+
+# --- FFT grids of more than a million samples ---------------------------------------------------------------------
+
+@st.composite
+def mega_fft_case(draw, tier="quick"):
+    N = draw(gen.mega_shape())
+    m = draw(st.integers(N[0] // 2, N[0])), draw(st.integers(N[1] // 2, N[1]))
+    return {"N": list(N), "pshape": list(m), "seed": draw(st.integers(0, 2**31 - 1)),
+            "power": draw(gen.pos_log(1e-3, 1e3)), "scratch": draw(st.booleans())}
+
+
+@hyp("C05", "mega_fft", lambda tier: mega_fft_case(tier),
+     "propagate_fft on grids of more than 2^20 samples (non-square, sizes of no special form): image power = input "
+     "power, with and without a dirty scratch buffer", examples=(3, 12), budget_s=(150, 700))
+def mega_fft(case, ctx):
+    N, ps = tuple(case["N"]), tuple(case["pshape"])
+    rng = np.random.default_rng(case["seed"])
+    wl, z, dx = 1e-6, 2.0, 1e-3
+    amp = rng.uniform(0.2, 1.0, size=ps)
+    opd = rng.normal(size=ps) * 0.2 * wl
+    with lentil_call("C05.mega.normalize", "normalize_power"):
+        amp = lentil.normalize_power(amp, case["power"])
+    du = (wl * z / (dx * N[0]), wl * z / (dx * N[1]))
+    ctx.tag("mega", "scratch" if case["scratch"] else "no_scratch")
+    ctx.nontrivial_if(True)
+    kw = {}
+    if case["scratch"]:
+        kw["scratch"] = rng.normal(size=N) + 1j * rng.normal(size=N)
+    with lentil_call("C05.mega.fft", f"propagate_fft(pupil {ps}, grid {N})"):
+        w = lentil.Wavefront(wl) * lentil.Pupil(amplitude=amp, opd=opd, pixelscale=dx, focal_length=z)
+        I = lentil.propagate_fft(w, pixelscale=du, oversample=1, **kw).intensity
+    p_in = float(np.sum(amp ** 2))
+    if I.shape != N or np.any(I < 0) or abs(float(I.sum()) - p_in) > 1e-10 * p_in:
+        raise Violation("C05.mega.total", f"FFT image {I.shape} of a {ps} pupil carries {float(I.sum()):.12e}, input power "
+                                          f"{p_in:.12e}")
